@@ -1,6 +1,8 @@
 package main
 
 import (
+	"strconv"
+	"strings"
 	"verifharness/docs"
 	"verifharness/gen"
 	"verifharness/mon"
@@ -219,7 +221,7 @@ func c09Tree(c c09Case, fromDoc bool) (*gen.Expr, interface{}) {
 
 func c09(r *mon.Run) {
 	r.Rule = "per function, exhaustive over a typed universe sized to its signature: 24 numbers (incl. -0, fractions, integers around 2^24, 2^53, 2^63, 2^64, 1e21, the float range ends), 12 strings (empty, ASCII, precomposed and decomposed é, astral), 33 number-like strings for to_number (JSON numbers and near misses: +1 .5 1. 0x10 0x1p-2 1_0 inf nan Infinity 1e999 …), every array over {-1,1,2} up to length 4 and over {a,b,é,B} up to length 3 (ties, duplicates), mixed/nested arrays, every object over keys a,b,c with values 1,\"x\",null (merge with 1-3 arguments, colliding keys), " +
-		"every array of up to 4 objects with tied / distinct number or string keys for sort_by, max_by, min_by, map (elements tagged with their index so stability and first-extremum are observable); arguments written as literals, read from the document, and read from a document whose arrays are Go-typed slices (docs.Typify); each call also nested in seeded random contexts; every function x 10 call shapes x 11 element patterns x 22 array lengths on and around internal thresholds (sized.go). " +
+		"every array of up to 4 objects with tied / distinct number or string keys for sort_by, max_by, min_by, map (elements tagged with their index so stability and first-extremum are observable); arguments written as literals, read from the document, and read from a document whose arrays are Go-typed slices (docs.Typify); every call template in each of the 38 single-hole contexts of the grammar; contains / starts_with / ends_with / join / reverse / length / sort / max / min over every ordered pair of 40 strings chosen by relation (prefix, suffix, infix, equal, longer needle, overlapping repeats, separator inside an element, combining marks, astral, 300-byte runs); each call also nested in seeded random contexts; every function x 10 call shapes x 16 element patterns x 22 array lengths on and around internal thresholds (sized.go). " +
 		"Oracle: ref function semantics (relational for to_string: any JSON text that decodes back; keys/values: any permutation). Non-trivial = distinct (expression, document) with a non-error expected result; per-function counts in the evidence."
 	r.Exhaustive = true
 	r.Floor = 3000
@@ -287,6 +289,55 @@ func c09(r *mon.Run) {
 			}
 			t.Count("typed-slice calls agreeing")
 			t.Nontrivial("ts:" + expr + ref.Canon(doc))
+		}}
+	// every call template in every single-hole context of the grammar (the 38 contexts of C11): a function
+	// meeting a particular projection kind, operator side or expression-reference body
+	cbase := c06BaseDoc()
+	cbase["a"], cbase["x"] = cbase["an"], cbase["ao"]
+	var ccalls []*gen.Expr
+	ccalls = append(ccalls, c06Calls(false, cbase)...)
+	ccalls = append(ccalls, c06Calls(true, cbase)...)
+	cctx := c11Contexts()
+	every := mon.Workload{Name: "calls-in-every-context", N: len(ccalls) * len(cctx), Batch: 500,
+		Describe: func(i int) string { return gen.Spell(cctx[i%len(cctx)].f(ccalls[i/len(cctx)])) },
+		Do: func(i int, t *mon.Tally) {
+			tree := cctx[i%len(cctx)].f(ccalls[i/len(cctx)])
+			expr := gen.Spell(tree)
+			cx := &caseCtx{r, t, "calls-in-every-context", i}
+			res, _, _ := cx.runBoth(tree, expr, cbase)
+			if !isErr(res) && !res.DontCare && res.Skipped == "" {
+				t.Nontrivial("every:" + expr)
+				t.Count("calls in a grammar context with a value expected")
+			}
+		}}
+	// string relations: every ordered pair of strings chosen for how they relate (prefix, suffix, infix, equal, longer
+	// needle than haystack, overlapping repeats, the separator inside an element, multi-byte boundaries, 300-byte runs)
+	long := strings.Repeat("ab", 150)
+	srel := []string{"", "a", "ab", "abc", "abcd", "b", "bc", "c", "abab", "aba", "ba", "aab", "aa", "é", "e", "e\u0301", "éa", "aé", "😀", "😀a", "a😀", "A", "aB", " ", "a ", " a", ",", "a,b", ",a", "a,", "a\x00b", "\n", "ab\n",
+		long, long[:298], long + "a", "b" + long, "\u00e9\u0301", "ß", "ss"}
+	NS := len(srel)
+	strw := mon.Workload{Name: "string-relations", N: NS * NS * 5, Batch: 2000,
+		Do: func(i int, t *mon.Tally) {
+			x, y := srel[i/5%NS], srel[i/5/NS]
+			doc := map[string]interface{}{"x": x, "y": y, "arr": []interface{}{x, y, x}, "one": []interface{}{x}}
+			X, Y := gen.Field("x"), gen.Field("y")
+			var tree *gen.Expr
+			switch i % 5 {
+			case 0:
+				tree = gen.Func("contains", X, Y)
+			case 1:
+				tree = gen.Func("starts_with", X, Y)
+			case 2:
+				tree = gen.Func("ends_with", X, Y)
+			case 3:
+				tree = gen.MultiList(gen.Func("join", Y, gen.Field("arr")), gen.Func("join", Y, gen.Field("one")), gen.Func("contains", gen.Field("arr"), Y))
+			default:
+				tree = gen.MultiList(gen.Func("reverse", X), gen.Func("length", X), gen.Func("sort", gen.Field("arr")), gen.Func("max", gen.Field("arr")), gen.Func("min", gen.Field("arr")), gen.Cmp("==", X, Y))
+			}
+			expr := gen.SpellTight(tree)
+			cx := &caseCtx{r, t, "string-relations", i}
+			cx.runBoth(tree, expr, doc)
+			t.Nontrivial("srel:" + strconv.Itoa(i))
 		}}
 	// nested in random contexts
 	nr := tierPick(r, 40000, 1000000)
@@ -382,5 +433,5 @@ func c09(r *mon.Run) {
 				t.Nontrivial("large:" + expr + ref.Canon(doc))
 			}
 		}}
-	r.Exec(exh, typed, ctx, large, sizedWorkload(r, "sized-arrays", false))
+	r.Exec(exh, typed, every, strw, ctx, large, sizedWorkload(r, "sized-arrays", false))
 }
